@@ -1,6 +1,7 @@
 SPECIFICATION GSpec
 CONSTANTS NR = 2
           NEST = TRUE
+          LISTS = FALSE
 CHECK_DEADLOCK FALSE
 INVARIANT Emit
 PROPERTY NoLeak
